@@ -108,24 +108,28 @@ DRIVERS = {
         "level_note": "Trusted: fault injection at the libc boundary (glob(3)'s internal directory reads cannot be faulted), harness world. A fault present at configuration load time may lead to a clean rejection, which counts as survived. Garbage contents are outside the statement.",
     },
     "C20": {
-        "sources": COMMON_E2 + ["props/c20.cpp"], "level": "model_checking", "engine": "E2", "extra": ["TSAN"], "tsan_mode": "log",
-        "technique": "stateless preemption-bounded enumeration of all thread schedules of the real Log (producers, flusher, environment thread, shutdown) under a cooperative scheduler interposed at the pthread boundary; FIFO-multiset / backlog oracle per schedule; separate free-running ThreadSanitizer pass",
+        "sources": COMMON_E2 + ["props/c20.cpp"], "level": "model_checking", "engine": "E2", "extra": ["TSAN", "C20A"], "tsan_mode": "log", "atomics": "C20A",
+        "technique": "stateless preemption-bounded enumeration of all thread schedules of the real Log (producers, flusher, environment thread, shutdown) under a cooperative scheduler interposed at the pthread boundary; FIFO-multiset / backlog oracle per schedule; second exhaustive pass in which liboomd's atomic operations are scheduling points too; separate free-running ThreadSanitizer pass",
         "level_text": "For every configuration all schedules with at most PB preemptions are executed on the real implementation (one process per schedule); each is checked for exactly-once delivery, per-thread order, flush-before-shutdown-returns, the 1 MiB unwritten bound at every step, drop accounting, per-thread silencing and absence of deadlock/livelock. The coverage statement is at synchronisation-point granularity.",
-        "level_note": "Trusted: scheduler (harness/sched), harness sink. Assumes data-race freedom between synchronisation points, which a separate TSan build of the same bodies monitors; memory orderings weaker than seq-cst are not modelled (oomd uses none here).",
+        "level_note": "Trusted: scheduler (harness/sched), harness sink. Assumes data-race freedom between synchronisation points, which a separate TSan build of the same bodies monitors; memory orderings weaker than seq-cst are not modelled. Atomic operations are scheduling points only in the atomics pass (liboomd compiled with -fsanitize=thread and linked against harness/sched/tsanstub_nosan.cpp instead of libtsan; quick tier: preemption bound 1).",
     },
     "C19": {
-        "sources": COMMON_E2 + ["props/c19.cpp"], "level": "model_checking", "engine": "E2", "extra": ["TSAN"], "tsan_mode": "stats",
-        "technique": "stateless preemption-bounded enumeration of all thread schedules of the real Stats service (API callers, accept thread, handler threads, scheduled socket clients, destructor) under a cooperative scheduler with virtual-time socket/condvar timeouts; brute-force linearizability check and protocol monitor per schedule; separate ThreadSanitizer pass",
+        "sources": COMMON_E2 + ["props/c19.cpp"], "level": "model_checking", "engine": "E2", "extra": ["TSAN", "C19A"], "tsan_mode": "stats", "atomics": "C19A",
+        "technique": "stateless preemption-bounded enumeration of all thread schedules of the real Stats service (API callers, accept thread, handler threads, scheduled socket clients, destructor) under a cooperative scheduler with virtual-time socket/condvar timeouts; brute-force linearizability check (API calls and socket get/reset sessions in one history) and protocol monitor per schedule; second exhaustive pass in which liboomd's atomic operations are scheduling points too; separate ThreadSanitizer pass",
         "level_text": "All schedules with at most PB preemptions of each counter program and of each client-session configuration are executed on the real implementation, one process per schedule, over real AF_UNIX sockets whose readiness is peeked non-blockingly by the scheduler; timeouts (2 s socket, 5 s shutdown wait) fire in virtual time at quiescence. Every call/return history must be linearizable, every session must get at most one well-formed reply, the server must stay responsive and ~Stats must return.",
-        "level_note": "Trusted: scheduler and its enabledness rules (poll-based readiness, timers at quiescence), harness clients. Scheduling-point granularity; data races are the TSan pass's job.",
+        "level_note": "Trusted: scheduler and its enabledness rules (poll-based readiness, timers at quiescence), harness clients. Scheduling-point granularity (pthread/socket/file operations; plus atomic operations in the atomics pass, quick tier preemption bound 1 there); data races are the TSan pass's job.",
     },
     "C14": {
-        "sources": COMMON_E2 + ["props/c14.cpp"], "level": "model_checking", "engine": "E2", "extra": ["TSAN"], "tsan_mode": "dropin",
-        "technique": "stateless preemption-bounded enumeration of all schedules of main loop x real inotify/epoll watcher thread x environment thread for every bounded file-operation sequence, under a cooperative scheduler; convergence oracle against the file system's final contents; separate ThreadSanitizer pass",
+        "sources": COMMON_E2 + ["props/c14.cpp"], "level": "model_checking", "engine": "E2", "extra": ["TSAN", "C14A"], "tsan_mode": "dropin", "atomics": "C14A",
+        "technique": "stateless preemption-bounded enumeration of all schedules of main loop x real inotify/epoll watcher thread x environment thread for every bounded file-operation sequence, under a cooperative scheduler; convergence oracle against the file system's final contents; second exhaustive pass in which liboomd's atomic operations are scheduling points too; separate ThreadSanitizer pass",
         "level_text": "For every environment sequence within the bound, all schedules with at most PB preemptions are executed on the real FsDropInService (real inotify, epoll, eventfd on a private directory), one process per schedule; the run must not deadlock, abort or crash, and once the file system is quiet and three more ticks have run the engine's drop-ins must be exactly the valid non-dot files present with their latest content; start-up files must load in name order.",
-        "level_note": "Trusted: scheduler (epoll readiness peeked non-blockingly; inotify delivers synchronously), harness environment thread. Scheduling-point granularity; data races are the TSan pass's job.",
+        "level_note": "Trusted: scheduler (epoll readiness peeked non-blockingly; inotify delivers synchronously), harness environment thread. Scheduling-point granularity (pthread/socket/file operations; plus atomic operations in the atomics pass, quick tier preemption bound 1 there); data races are the TSan pass's job.",
     },
     "TSAN": {
         "hidden": True, "variant": "tsan", "sources": ["props/tsan_pass.cpp"], "level": "other",
     },
+    # atomics pass: same driver sources, liboomd with TSan-ABI calls resolved by sched/tsanstub_nosan.cpp (atomic ops = scheduling points)
+    "C14A": {"hidden": True, "variant": "atm", "sources": COMMON_E2 + ["props/c14.cpp", "sched/tsanstub_nosan.cpp"], "level": "other"},
+    "C19A": {"hidden": True, "variant": "atm", "sources": COMMON_E2 + ["props/c19.cpp", "sched/tsanstub_nosan.cpp"], "level": "other"},
+    "C20A": {"hidden": True, "variant": "atm", "sources": COMMON_E2 + ["props/c20.cpp", "sched/tsanstub_nosan.cpp"], "level": "other"},
 }
